@@ -52,7 +52,7 @@ FirstExisting(fs, cands) ==
   IF idx = {} THEN NotFound ELSE Canon(cands[CHOOSE i \in idx : \A j \in idx : i <= j])
 
 \* ---- head of the path
-IsRelative(r) == r # <<>> /\ IsSpecial(r[1])
+IsRelative(r) == r = <<>> \/ IsSpecial(r[1])        \* the empty path is the request `.`
 ParentDir(src) == Front(src)                                  \* src is a canonical file path
 IsModuleFolderFile(src, mfn) == Last(src).stem = mfn.stem \/ Full(Last(src)) = Full(mfn)
 
